@@ -25,10 +25,16 @@ CHECKS = {
          "over the per-call contract (stated); all report histories up to the bound are also run through the real handle_controller/handle_fe (bounded stand-in).",
          PYVC_NOTE + "Assumed contracts: comms.get_context, router._spawn_subprocess (OS process start); zmq objects are opaque; client.parse_request / serialize_response (pydantic + orjson) and "
          "base64.b64encode are uninterpreted functions (their round trip is C17's bounded part)."),
- "C05": ("exploration", "contract-based deductive verification of Executor.healthcheck (exceptional postcondition, loop invariant) + bounded failure injection through the real chain",
-         "healthcheck: 'raises iff a child has an exit code / was never started' proved for every number of workers. The rest of the chain (execute_sequence, recv_loop, Bridge.recv_events, controller.run, terminate, "
-         "Manager.atexit) is exercised by exhaustive failure injection with fake process handles and an in-memory network - bounded, not proof.",
-         PYVC_NOTE + "N/A part: wall-clock bound, leaked OS processes / segments after real crashes (no contract over Python-visible state expresses what the kernel holds)."),
+ "C05": ("exploration", "contract-based deductive verification of the failure chain's functions (exceptional postconditions, call presence through a ghost log, loop invariants) + bounded failure injection through the real chain",
+         "Proved for every input: Executor.healthcheck raises iff a child has an exit code / was never started; runner.entrypoint.execute_sequence never lets an exception escape and reports a "
+         "TaskFailure for this worker naming the task in hand, last, at most once - and ends with memory.flush() otherwise; Executor.terminate never raises, tells every started worker to shut down "
+         "and a live shm server to stop; Executor.recv_loop ends only by terminating and never terminates without having told the controller (ExecutorExit or ExecutorFailure for ANY exception), "
+         "and every turn runs the health check then the retry pass; Bridge.recv_events never returns a batch that carried a failure notice (it shuts the executors down and raises), returns only "
+         "publications / payloads and never an empty batch. The composition (controller.run, Manager.atexit, real processes) is exercised by exhaustive failure injection with fake process "
+         "handles and an in-memory network - bounded, not proof.",
+         PYVC_NOTE + "Assumed contracts: comms.callback, Executor.to_controller, runner.run / RunnerContext.project / PackagesEnv.extend / Memory.flush (may raise anything), shm_client.shutdown, "
+         "Bridge.shutdown, ReliableSender.ack/maybe_retry (proved under C06), GraceWatcher (heartbeat bookkeeping). N/A part: wall-clock bound, leaked OS processes / segments after real crashes "
+         "(no contract over Python-visible state expresses what the kernel holds)."),
 }
 BOUNDED = {
  "C01": "bounded exploration (ctrlx) of the real controller.impl.run + scheduler + worker-side execute_sequence/runner/Memory against a simulated cluster; values compared with an independent sequential evaluation",
